@@ -5,6 +5,8 @@
 package backtest
 
 import (
+	"sync"
+
 	"github.com/cinar/indicator/v2/asset"
 	"github.com/cinar/indicator/v2/helper"
 	"github.com/cinar/indicator/v2/strategy"
@@ -30,6 +32,9 @@ type DataStrategyResult struct {
 
 // DataReport is the bactest data report enablign programmatic access to the backtest results.
 type DataReport struct {
+	// mu guards the results, which are written by all backtest workers.
+	mu sync.Mutex
+
 	// Results are the backtest results for the assets.
 	Results map[string][]*DataStrategyResult
 }
@@ -48,6 +53,9 @@ func (*DataReport) Begin(_ []string, _ []strategy.Strategy) error {
 
 // AssetBegin is called when backtesting for the given asset begins.
 func (d *DataReport) AssetBegin(name string, strategies []strategy.Strategy) error {
+	d.mu.Lock()
+	defer d.mu.Unlock()
+
 	d.Results[name] = make([]*DataStrategyResult, 0, len(strategies))
 	return nil
 }
@@ -69,6 +77,9 @@ func (d *DataReport) Write(assetName string, currentStrategy strategy.Strategy, 
 		Action:       <-lastAction,
 		Transactions: transactions,
 	}
+
+	d.mu.Lock()
+	defer d.mu.Unlock()
 
 	d.Results[assetName] = append(d.Results[assetName], result)
 
